@@ -4,7 +4,8 @@
    circularly) at one position of the circle s only.  An enzyme is ANY (site, off, ovh): any
    recognition word, any cut offset, any overhang length. *)
 From MV Require Import Base RotLemmas Regex RegexLemmas Shape ShapeLemmas Typing TypingLemmas TotalLemmas
-                       ShapeTyping PartLemmas Anchors Canonical Assembly AssemblyLemmas Pipeline PipelineLemmas ProductLemmas.
+                       ShapeTyping PartLemmas Anchors Canonical StrandLemmas Assembly AssemblyLemmas Pipeline PipelineLemmas ProductLemmas.
+Local Open Scope nat_scope.
 
 (* the module of the formal definition: site . x . o5 . t . o3 . y . rc(site) . backbone with
    |t| >= 2 and the two sites once each on the circle is accepted at EVERY rotation k (origin
@@ -60,6 +61,23 @@ Theorem C01_product : forall (v : @tvec (list code)) ms c r,
   dna_assemble v ms = Product (concat (map mfrag c) ++ vfrag v) (map mid c) (map mid r).
 Proof. exact (assemble_chain codes_eqb rc_codes codes_eqb_spec). Qed.
 Print Assumptions C01_product.
+
+(* the documented formula. Modules and vector given by what they report (overhangs, body):
+   if the modules chain from the vector's downstream overhang to its upstream overhang and the
+   overhang set is clash-free, the product is   o5_1 . t_1 . o5_2 . t_2 ... o5_q . t_q . up . backbone
+   — a rotation of "backbone with its upstream overhang, then each module's upstream overhang and
+   target in chain order", every junction overhang once — whatever the order of the arguments *)
+Theorem C01_formula : forall (v : svec) (cs ms : list smod),
+  Permutation.Permutation ms cs -> NoDup (map sid ms) ->
+  path (okey (sdn v)) (map keys_of cs) (okey (sup v)) ->
+  okey (sup v) <> okey (sdn v) ->
+  Forall (fun m => okey (so5 m) <> okey (sup v)) cs ->
+  Forall (fun m => okey (so3 m) <> okey (sdn v)) cs ->
+  clash_free rc_codes (map tmod_of ms) -> clash_free rc_codes (map tmod_of (map rc_smod ms)) ->
+  dna_assemble (tvec_of v) (map tmod_of ms) =
+    Product (concat (map frag cs) ++ (sup v ++ svbody v)) (map sid cs) [].
+Proof. intros v cs ms H1 H2 H3 H4 H5 H6 H7 H8. exact (proj1 (strand_assembly v cs ms H1 H2 H3 H4 H5 H6 H7 H8)). Qed.
+Print Assumptions C01_formula.
 
 (* from raw records: the product word is the used modules' target fragments in chain order
    followed by the vector's target fragment, and its length is the sum of their lengths *)
